@@ -93,7 +93,7 @@ Definition q (n : Z) (d : positive) : Q := Qmake n d.
 (* starting point from the set_initial calls *)
 Definition run_initial_float (oc : ocp) (nv nvc nvp : nat) (calls : list gcall) (pvals : list Q) :=
   let s := @start_values _ FloatOps oc nv nvc nvp calls pvals in
-  (s_X s, s_U s, s_V s, s_VC s, s_VP s, (s_T s, s_t0 s), (s_Xi s, s_Xc s, s_Zc s)).
+  (s_X s, s_U s, s_V s, s_VC s, s_VP s, (s_T s, s_t0 s), (s_Xi s, s_Xc s, s_Zc s), (s_t0loc s, s_Tloc s)).
 
 (* der(): value of the total time derivative of e along the dynamics *)
 From RV Require Import Mech.Der.
